@@ -4,6 +4,14 @@ import json, os
 HERE = os.path.dirname(os.path.dirname(os.path.abspath(__file__)))
 
 CLAIMED = {
+    "C10": dict(
+        technique="sibling-agreement over every macro expansion (validate-before-construct on MIR paths) + pointer-cast shape rules + who-may-call classification + A3 site rules + boundary evaluation of the length atom",
+        text="Decides: all generated constructors of each validated identifier type call the same validate on the same string before any unchecked "
+             "constructor; storage is byte-for-byte; Display/Serialize go through as_str; hand-written unchecked constructions are existing ids, sub-slices or "
+             "re-validated; validators/accessors have no undischarged panic site; 255-byte limit exact. Does NOT decide the accepted language of each validator "
+             "(e.g. port digits) nor that every spec-grammar identifier is accepted.",
+        note="Trusted: reviewed panic table; the nested-language conversion pairs (RoomId/RoomAliasId <-> RoomOrAliasId). Known finding: KeyId::from_parts.",
+        design="DESIGN.md §4 C10"),
     "C17": dict(
         technique="MIR site inventory (panic/bounds/cast/RefCell) with dominating-guard discharge + reviewed exact-key table; call-graph SCCs; loop-exit and static scans",
         text="Decides: every potential panic/truncation/bounds site in 7 crates (hand-written and macro-generated bodies) is discharged by a verified rule or "
